@@ -424,6 +424,13 @@ func c19Strata() []*gast.Grammar {
 			r("Path", gast.C(gast.S(gast.Ref("Step"), gast.L("/")), gast.L("p"))), r("Step", gast.C(gast.S(gast.Ref("Path"), gast.L(".")), gast.L("s"))),
 			r("Qual", gast.C(gast.S(gast.Ref("Name"), gast.L(":")), gast.L("q"))), r("Name", gast.C(gast.S(gast.Ref("Ident"), gast.L("'")), gast.L("i"))), r("Ident", gast.C(gast.S(gast.Ref("Qual"), gast.L("!")), gast.L("j"))),
 			r("Dead", gast.S(gast.Ref("LegacyHead"), gast.Ref("LegacyBody"), gast.Ref("LegacyTail"))), r("LegacyHead", gast.L("h")), r("LegacyBody", gast.S(gast.L("b"), gast.Ref("LegacyTail"))), r("LegacyTail", gast.L("t"))),
+		// a choice whose earlier alternative is nullable only through a rule reference, followed by an
+		// alternative "NullableRule X ..." where X leads back to the enclosing rule
+		mk(r("Start", gast.S(gast.Ref("Item"), gast.NotE(gast.Dot()))), r("Prefix", gast.Opt(gast.L("+"))), r("Item", gast.C(gast.Ref("Blank"), gast.S(gast.Ref("Prefix"), gast.Ref("Chain"), gast.L(";")))),
+			r("Blank", gast.Star(gast.L(" "))), r("Chain", gast.C(gast.S(gast.Ref("Item"), gast.L(".")), gast.Plus(gast.Cl(gast.Chars("ab")))))),
+		// one mutually left-recursive group with two directly left-recursive rules (no rule lies on all cycles)
+		mk(r("Start", gast.S(gast.Ref("Expr"), gast.NotE(gast.Dot()))), r("Expr", gast.C(gast.S(gast.Ref("Expr"), gast.L("+"), gast.Ref("Term")), gast.Ref("Term"))),
+			r("Term", gast.C(gast.S(gast.Ref("Term"), gast.L("*"), gast.Ref("Call")), gast.Ref("Call"))), r("Call", gast.C(gast.S(gast.Ref("Expr"), gast.L("("), gast.L(")")), gast.Plus(gast.Cl(gast.Chars("01")))))),
 		// nullable computation depends on the visit order of mutually recursive rules
 		mk(r("Q", gast.C(gast.S(gast.Ref("R"), gast.L("q")), gast.L(""))), r("R", gast.S(gast.Ref("Q"), gast.Ref("T"), gast.L("r"))), r("T", gast.C(gast.S(gast.Ref("R"), gast.L("y")), gast.L("t")))),
 		mk(r("A", gast.C(gast.S(gast.Ref("B"), gast.L("a")), gast.L(""))), r("B", gast.C(gast.S(gast.Ref("C"), gast.Opt(gast.L("b"))), gast.Ref("A"))), r("C", gast.C(gast.S(gast.Ref("A"), gast.Ref("B"), gast.L("c")), gast.L("x"))), r("D", gast.S(gast.Ref("A"), gast.Ref("C")))),
